@@ -67,7 +67,7 @@ func relatedTokens(r *rand.Rand, rel string, k, n int) []string {
 				out[j] = "eyJ" + b64word(r, cut-3) + base[cut:]
 			}
 		case "one-middle-byte":
-			pos := 70 + r.Intn(len(base)-140)
+			pos := len(base)/3 + r.Intn(len(base)/3)
 			for j := range out {
 				b := []byte(base)
 				b[pos] = "QRST"[j]
@@ -148,7 +148,7 @@ func runConcurrent(rep *vh.Report, env vh.Env, stacks []*stack, only int) {
 		if path == "validate" {
 			related = relatedTokens(r, rel, k, 200+r.Intn(700))
 		} else {
-			related = relatedTokens(r, rel, k, 120+r.Intn(300))
+			related = relatedTokens(r, rel, k, 200+r.Intn(300))
 		}
 		// who is live: both orders, plus all-live and none-live groups
 		live := make([]bool, k)
@@ -290,7 +290,7 @@ func runConcurrent(rep *vh.Report, env vh.Env, stacks []*stack, only int) {
 			rs := m.rs
 			km := &kc.Members[j]
 			km.Status, km.OwnCalls = rs.Status, len(calls[j])
-			code, lu := queryCode(rs.Location())
+			code, _ := queryCode(rs.Location())
 			issued := rs.Status == 302 && code != ""
 			km.CodeIssued = issued
 			if j > 0 && len(calls[j]) > 0 && len(calls[0]) > 0 && calls[j][0].Seq < calls[0][0].EndSeq && calls[0][0].Seq < calls[j][0].EndSeq {
